@@ -48,17 +48,33 @@ class StudentTLikelihood(_OneDimensionalLikelihood):
         self.raw_noise = torch.nn.Parameter(torch.zeros(*batch_shape, 1))
 
         if noise_prior is not None:
-            self.register_prior("noise_prior", noise_prior, lambda m: m.noise, lambda m, v: m._set_noise(v))
+            self.register_prior("noise_prior", noise_prior, self._noise_param, self._noise_closure)
 
         self.register_constraint("raw_noise", noise_constraint)
 
         if deg_free_prior is not None:
-            self.register_prior("deg_free_prior", deg_free_prior, lambda m: m.deg_free, lambda m, v: m._set_deg_free(v))
+            self.register_prior("deg_free_prior", deg_free_prior, self._deg_free_param, self._deg_free_closure)
 
         self.register_constraint("raw_deg_free", deg_free_constraint)
 
         # Rough initialization
         self.initialize(deg_free=7)
+
+    def _noise_param(self, m):
+        # Used by the noise_prior (a method rather than a lambda: the module stays picklable)
+        return m.noise
+
+    def _noise_closure(self, m, v):
+        # Used by the noise_prior
+        return m._set_noise(v)
+
+    def _deg_free_param(self, m):
+        # Used by the deg_free_prior (a method rather than a lambda: the module stays picklable)
+        return m.deg_free
+
+    def _deg_free_closure(self, m, v):
+        # Used by the deg_free_prior
+        return m._set_deg_free(v)
 
     @property
     def deg_free(self) -> Tensor:
